@@ -25,8 +25,10 @@ ALL_CFGS = ["default", "release", "fromstr", "demo"]
 # property id -> (module, configs for quick, configs for thorough)
 PROPS = {
     "C02": ("c02", ["default"], ALL_CFGS),
+    "C03": ("c03", ["default"], ALL_CFGS),
     "C04": ("c04", ["default"], ALL_CFGS),
     "C01": ("text", ["default"], ALL_CFGS),
+    "C05": ("c05", ["default"], ALL_CFGS),
     "C06": ("layout", ["default"], ALL_CFGS),
     "C07": ("text", ["default"], ALL_CFGS),
     "C08": ("layout", ["default"], ALL_CFGS),
